@@ -78,6 +78,15 @@ pub fn gen_base(rng: &mut Rng, cfg: &BaseCfg) -> (J, StdTable, Sel, Shape) {
         joined = Some(std_lines(rng, &t, un, &dc));
         let key = *rng.pick(&["k", "g"]);
         sel.join = Some(Join { outer: shape == Shape::Join && rng.chance(1, 3), table: "u".into(), file: "@JOINED@".into(), left: ("t".into(), key.into()), right: ("u".into(), key.into()) });
+        if shape == Shape::Join {
+            // conditions on the joined side's columns: some partners of a line yield no row, later ones do
+            if rng.chance(1, 2) {
+                let c = match rng.below(4) { 0 => bin(">=", col("u.i"), int(rng.range(-2, 8))), 1 => bin("!=", col("u.g"), int(rng.range(0, 4))), 2 => bin("!=", col("u.k"), text(*rng.pick(&["a", "b", ""]))), _ => bin("<", col("u.i"), col("t.i")) };
+                sel.filter = Some(match sel.filter.take() { Some(f) => bin(*rng.pick(&["AND", "OR"]), f, c), None => c });
+            }
+            // ... or are duplicates of rows already emitted
+            if rng.chance(1, 4) { sel.distinct = true; }
+        }
     }
     let mut u = t.spec.clone(); u.name = "u".into();
     let case = json!({"tables": format!("{} {}", t.spec.text(), u.text()), "stmt": sel.text(Paren::Full), "lines": lines, "joined": joined, "shape": format!("{:?}", shape)});
